@@ -78,6 +78,7 @@ type node struct {
 	nlink    int
 	mu       sync.RWMutex
 	mode     fs.FileMode
+	dir      bool
 }
 
 // OrefaInfo is the implementation of fs.FileInfo returned by Stat and Lstat.
